@@ -496,10 +496,14 @@ def _endpoint_from_socksport_line(reactor, socks_config):
     the same format expected by the SOCKSPort option in Tor.
     """
     if socks_config.startswith('unix:'):
-        # XXX wait, can SOCKSPort lines with "unix:/path" still
-        # include options afterwards? What about if the path has a
-        # space in it?
-        return UNIXClientEndpoint(reactor, socks_config[5:])
+        # "unix:/path" lines can carry options (e.g. WorldWritable)
+        # after the path too; a path with a space in it is quoted
+        path = socks_config[5:]
+        if path.startswith('"') and '"' in path[1:]:
+            path = path[1:path.index('"', 1)]
+        elif ' ' in path:
+            path = path.split()[0]
+        return UNIXClientEndpoint(reactor, path)
 
     # options like KeepAliveIsolateSOCKSAuth can be appended
     # to a SocksPort line...
